@@ -17,6 +17,8 @@ from __future__ import annotations
 import itertools
 
 import equinox as eqx
+import re
+
 import jax
 import numpy as np
 from jax import numpy as jnp
@@ -103,14 +105,28 @@ def all_fns(env):
     return f
 
 
-def tree_close(a, b, tol, elementwise=False):
+# outputs of MJX's iterative constraint solver (and quantities derived from the constraint forces): ill-conditioned in the contact
+# forces, so float32 reassociation between the vmapped and un-vmapped program shows up at the 1e-1 level there (measured on
+# G1Standing.initial: qfrc_constraint 4 %, force sensors 10 %) while positions, velocities, observations and rewards agree
+SOLVER_LEAVES = re.compile(r"\.(qacc|qacc_warmstart|qfrc_constraint|efc_\w+|cacc|cfrc_int|cfrc_ext|sensordata)$")
+
+
+POSITION_LEAVES = re.compile(r"\.(qpos|time)$")
+
+
+def tree_close(a, b, tol, elementwise=False, skip=None, keep=None):
     """float leaves: |x-y| <= tol*max(|y|, leaf scale) (heavy simulators) or, elementwise, tol*|y| + 0.1*tol*leaf scale
-    (so quantities that are small compared with their leaf - e.g. MountainCar's velocity - are still compared relatively)"""
-    la, lb = jax.tree.leaves(a), jax.tree.leaves(b)
-    if len(la) != len(lb):
+    (so quantities that are small compared with their leaf - e.g. MountainCar's velocity - are still compared relatively).
+    skip: regex on the leaf path; matching leaves are compared for shape only.  keep: only matching float leaves are compared numerically."""
+    pa, lb = jax.tree_util.tree_flatten_with_path(a)[0], jax.tree.leaves(b)
+    if len(pa) != len(lb):
         return False, "different structure"
     worst = 0.0
-    for x, y in zip(la, lb):
+    for (path, x), y in zip(pa, lb):
+        if (skip is not None and skip.search(jax.tree_util.keystr(path))) or (keep is not None and np.asarray(x).dtype.kind == "f" and not keep.search(jax.tree_util.keystr(path))):
+            if np.shape(x) != np.shape(y):
+                return False, f"shape {np.shape(x)} vs {np.shape(y)}"
+            continue
         x, y = np.asarray(x), np.asarray(y)
         if x.shape != y.shape:
             return False, f"shape {x.shape} vs {y.shape}"
@@ -129,6 +145,22 @@ def tree_close(a, b, tol, elementwise=False):
     return worst <= 1.0, f"max difference = {worst:.3g} x tolerance"
 
 
+def all_fns_given_successor(env):
+    """contact-rich MJX simulators: one control step runs several sub-steps of an iterative contact solver, through which float32
+    reassociation differences between two compilations of the same program grow to the percent level in the velocities (measured:
+    G1Standup qvel 3 %, qpos 0.3 %).  lerax's own functions are therefore evaluated on IDENTICAL inputs - the successor is passed in -
+    and compared tightly; the simulator step itself is compared on position-level leaves only."""
+
+    def f(state_and_successor, action, key):
+        state, nxt = state_and_successor
+        return dict(
+            transition=env.transition(state, action, key=key), observation=env.observation(state, key=key), reward=env.reward(state, action, nxt, key=key),
+            terminal=env.terminal(nxt, key=key), truncate=env.truncate(nxt), successor_observation=env.observation(nxt, key=key),
+        )
+
+    return f
+
+
 def tree_bits_equal(a, b):
     la, lb = jax.tree.leaves(a), jax.tree.leaves(b)
     return len(la) == len(lb) and all(np.asarray(x).tobytes() == np.asarray(y).tobytes() for x, y in zip(la, lb))
@@ -144,11 +176,26 @@ def clause_envmodes(cases, ctx: Ctx):
         # contact-rich simulators amplify float32 reassociation differences between the vmapped and the un-vmapped
         # program within one control step (several solver sub-steps through changing contact sets): looser bound there
         tol = 2e-2 if name in CONTACT_RICH else 1e-4
-        close = lambda a, b: tree_close(a, b, tol, elementwise=not heavy)
+        rich = name in CONTACT_RICH
+
+        def close(a, b):
+            if not rich:
+                return tree_close(a, b, tol, elementwise=not heavy)
+            if isinstance(a, dict) and "transition" in a:
+                ok, why = tree_close(a["transition"], b["transition"], 2e-2, keep=POSITION_LEAVES)
+                if not ok:
+                    return ok, "simulator step, position-level leaves: " + why
+                ka = [k for k in a if k != "transition"]
+                return tree_close({k: a[k] for k in ka}, {k: b[k] for k in ka}, 1e-4)
+            if isinstance(a, dict):
+                return tree_close(a, b, 1e-4)
+            return tree_close(a, b, tol, skip=SOLVER_LEAVES)  # initial states
+
         desc = f"{name}/{wrapper}"
         keys = [jr.key(k) for k in c["keys"]]
         acts = corner_actions(env.action_space)
-        f = all_fns(env)
+        f = all_fns_given_successor(env) if rich else all_fns(env)
+        trans_jit = eqx.filter_jit(lambda s, a, k: env.transition(s, a, key=k))
         f_jit = eqx.filter_jit(f)
         f_vmap = eqx.filter_jit(lambda s, a, k: jax.vmap(f)(s, a, k))
         init_jit = eqx.filter_jit(lambda k: env.initial(key=k))
@@ -163,9 +210,10 @@ def clause_envmodes(cases, ctx: Ctx):
             for si, s in enumerate(frontier):
                 for ai, a in enumerate(acts):
                     k = jr.fold_in(keys[si % len(keys)], d * 100 + ai)
-                    triples.append((s, a, k))
+                    succ = trans_jit(s, a, k) if rich else None
+                    triples.append(((s, succ), a, k) if rich else (s, a, k))
                     if d < c["depth"] and len(nxt) < 6:
-                        nxt.append(f_jit(s, a, k)["transition"])
+                        nxt.append(succ if rich else f_jit(s, a, k)["transition"])
             frontier = nxt
         triples = triples[: c.get("max_triples", 24)]
         stack = lambda xs: jax.tree.map(lambda *l: jnp.stack(l), *xs)
@@ -205,14 +253,14 @@ def clause_envmodes(cases, ctx: Ctx):
                         eo = f(*t)
                     else:
                         s, a, k = t
-                        nxt = jit_out[i]["transition"]
+                        s, nxt = s if rich else (s, jit_out[i]["transition"])
                         eo = dict(observation=env.observation(s, key=k), reward=env.reward(s, a, nxt, key=k), terminal=env.terminal(nxt, key=k), truncate=env.truncate(nxt))
                     ok, why = close(eo, {kk: jit_out[i][kk] for kk in eo})
                     if not ok:
                         out.append((ci, "C12/envmodes/eager-vs-jit", f"{desc}: triple {i}: eager result differs from the jitted one: {why}"))
                         break
         # a fresh trace at the end must reproduce the first compilation bit for bit (no trace-time Python state)
-        f_jit2 = eqx.filter_jit(all_fns(make_env(name, wrapper)))
+        f_jit2 = eqx.filter_jit((all_fns_given_successor if rich else all_fns)(make_env(name, wrapper)))
         for i in ((0, len(triples) - 1) if heavy else range(len(triples))):
             if not tree_bits_equal(f_jit2(*triples[i]), jit_out[i]):
                 out.append((ci, "C12/envmodes/retrace-differs", f"{desc}: re-tracing the same functions at the end of the exploration gives different results for triple {i}"))
@@ -435,7 +483,7 @@ def explore(ctx: Ctx):
         "{2,3,4} x PPO/A2C/DQN/SAC with scripted and MLP policies, plus per-stream reference validation of the real iteration. "
         "non-trivial = an env/wrapper grid, or a collection in which environments start in different states"
     )
-    ctx.assumptions = [f"key alphabet K = {keys}", "mode agreement: classic control |x-y| <= 1e-4*|y| + 1e-5*leaf scale elementwise; MJX 1e-4*max(|y|, leaf scale, 1) (2e-2 for the contact-rich Ant/Humanoid/HumanoidStandup/Walker2d/G1, where reassociation differences are amplified through changing contact sets); discrete outputs exact; repetition and re-tracing bit-identical",
+    ctx.assumptions = [f"key alphabet K = {keys}", "mode agreement: classic control |x-y| <= 1e-4*|y| + 1e-5*leaf scale elementwise; MJX 1e-4*max(|y|, leaf scale, 1); for the contact-rich Ant/Humanoid/HumanoidStandup/Walker2d/G1 (iterative contact solver: reassociation differences grow to the percent level in velocities within one control step) lerax's own functions (observation, reward, terminal, truncate) are compared at 1e-4 on identical inputs (successor passed in), the simulator step on position-level leaves at 2e-2, initial states at 2e-2 without solver outputs; discrete outputs exact; repetition and re-tracing bit-identical",
                        "GymToLeraxEnv excluded from vmap (documented)"]
     ctx.accept_unreproduced |= {"C12/envmodes/retrace-differs", "C12/envmodes/not-a-function-of-its-arguments", "C12/envmodes/eager-call-count-dependence"}
     envc = []
